@@ -145,7 +145,10 @@ Inductive op :=
 | AddVol (id total : N)
 | SetRO (id : N) (ro : bool)
 | Observe
-| Restart.
+| Restart
+  (* an operation of any kind that returned an error (a store call that failed after the
+     manager's own validation passed: unknown sector root, duplicate id, database error) *)
+| Failed.
 
 Inductive obs :=
 | ODone (ok : bool)
@@ -299,6 +302,7 @@ Definition step (s : state) (o : op) : state * obs :=
       end
   | Observe => (s, observe s)
   | Restart => (restart s, ODone true)
+  | Failed => (s, ODone false)
   end.
 
 (** * Vocabulary of the theorems *)
